@@ -13,7 +13,14 @@ Definition T := mkT unops_list binops_list.
 Arguments sort_by : simpl never.
 
 Definition vok (s : st) (v : inp) : Prop :=
-  match v with K _ => True | O u ch => exists U, get_unit s u = Some U /\ (multi U = false -> ch = 0) end.
+  match v with
+  | K _ => True
+  | O u ch => exists U, get_unit s u = Some U /\ (multi U = false -> ch = 0) /\ (isugen U = false -> iswf U = true)
+  end.
+
+(* the WidthFirstUGen objects among the first n objects, in creation order *)
+Definition iswf_at (s : st) (x : nat) : bool := match get_unit s x with Some X => iswf X | None => false end.
+Definition wf_upto (s : st) (n : nat) : list nat := filter (iswf_at s) (seq 0 n).
 
 Record Built (s : st) : Prop := mkBuilt {
   B_rw : rewriting s = false;
@@ -22,7 +29,9 @@ Record Built (s : st) : Prop := mkBuilt {
   B_ins : forall u U v ch, get_unit s u = Some U -> In (O v ch) (ins U) -> v < u /\ vok s (O v ch);
   B_wfa : forall u U, get_unit s u = Some U ->
           exists w, wfa U = Some w /\ forall x, In x w -> x < u /\ exists X, get_unit s x = Some X /\ iswf X = true;
-  B_wfugens : forall x, In x (wfugens s) -> exists X, get_unit s x = Some X /\ iswf X = true
+  B_wfugens : forall x, In x (wfugens s) -> exists X, get_unit s x = Some X /\ iswf X = true;
+  B_wfx : forall u U, get_unit s u = Some U -> wfa U = Some (wf_upto s u);
+  B_wfux : wfugens s = wf_upto s (List.length (units s))
 }.
 
 Definition ext (s s' : st) : Prop := exists extra, units s' = units s ++ extra.
@@ -34,6 +43,19 @@ Proof. intros s s' u U [x Hx] G. unfold get_unit in *. rewrite Hx. rewrite nth_e
 Lemma vok_ext : forall s s' v, ext s s' -> vok s v -> vok s' v.
 Proof. intros s s' [q|u ch] E H; simpl in *; auto. destruct H as (U & G & M). exists U. split; auto. eapply get_ext; eauto. Qed.
 
+(* an object that is read and is not a UGen instance is one of the reader's width-first antecedents; the
+   antecedents of an input are antecedents of its reader *)
+Lemma Built_covered : forall s c C v ch V, Built s -> get_unit s c = Some C -> In (O v ch) (ins C) -> get_unit s v = Some V ->
+  exists w wv, wfa C = Some w /\ wfa V = Some wv /\ (isugen V = false -> In v w) /\ incl wv w.
+Proof.
+  intros s c C v ch V B GC Hin GV. destruct (B_ins s B c C v ch GC Hin) as [Lt (V0 & GV0 & _ & Hw)].
+  rewrite GV in GV0. injection GV0 as <-.
+  exists (wf_upto s c), (wf_upto s v). split; [apply (B_wfx s B); auto|]. split; [apply (B_wfx s B); auto|]. split.
+  - intro Iu. unfold wf_upto. apply filter_In. split; [apply in_seq; lia|]. unfold iswf_at. rewrite GV. auto.
+  - intros x Hx. unfold wf_upto in *. apply filter_In in Hx. destruct Hx as [Hx Hy]. apply filter_In. split; auto.
+    apply in_seq in Hx. apply in_seq. lia.
+Qed.
+
 Lemma Built0 : Built st0.
 Proof.
   constructor; simpl; auto.
@@ -41,6 +63,7 @@ Proof.
   - intros u U v ch H. destruct u; discriminate.
   - intros u U H. destruct u; discriminate.
   - intros x [].
+  - intros u U H. destruct u; discriminate.
 Qed.
 
 (* ---- one object creation (SynthDef._add_ugen) *)
@@ -86,6 +109,23 @@ Proof.
       * destruct (B_wfugens0 x Hx) as (X & GX & WX). exists X. split; auto. eapply get_ext; eauto.
       * exists U. split; auto. unfold get_unit; simpl. rewrite nth_error_app2, Nat.sub_diag by (fold n; lia). auto.
     + destruct (B_wfugens0 x Hx) as (X & GX & WX). exists X. split; auto. eapply get_ext; eauto.
+  - intros x X G. assert (Hsame : forall k, k <= n -> wf_upto (mkS (units s ++ [U]) (children s ++ [Some n])
+                       (if wfirst then wfugens s ++ [n] else wfugens s) false (sets s) (controls s)) k = wf_upto s k).
+    { intros k Hk. unfold wf_upto. apply filter_ext_in. intros y Hy. apply in_seq in Hy. unfold iswf_at, get_unit. cbn [units].
+      rewrite nth_error_app1 by (fold n; lia). reflexivity. }
+    destruct (Hget x X G) as [[L G0]|[-> ->]].
+    + rewrite Hsame by lia. apply B_wfx0; auto.
+    + rewrite Hsame by lia. rewrite H3. f_equal. exact B_wfux0.
+  - cbn [wfugens units]. rewrite app_length. cbn [List.length]. fold n. rewrite Nat.add_1_r. unfold wf_upto. rewrite seq_S, filter_app. cbn [filter plus].
+    assert (Hn : iswf_at (mkS (units s ++ [U]) (children s ++ [Some n])
+                       (if wfirst then wfugens s ++ [n] else wfugens s) false (sets s) (controls s)) n = wfirst).
+    { unfold iswf_at, get_unit. cbn [units]. rewrite nth_error_app2, Nat.sub_diag by (fold n; lia). simpl. exact H5. }
+    rewrite Hn.
+    assert (Hold : filter (iswf_at (mkS (units s ++ [U]) (children s ++ [Some n])
+                       (if wfirst then wfugens s ++ [n] else wfugens s) false (sets s) (controls s))) (seq 0 n) = wfugens s).
+    { rewrite B_wfux0. unfold wf_upto. fold n. apply filter_ext_in. intros y Hy. apply in_seq in Hy. unfold iswf_at, get_unit. cbn [units].
+      rewrite nth_error_app1 by (fold n; lia). reflexivity. }
+    rewrite Hold. destruct wfirst; [reflexivity | rewrite app_nil_r; reflexivity].
 Qed.
 
 (* ---- the operator tables: every canonical name looks itself up *)
@@ -122,9 +162,11 @@ Proof. intros; split; [|split]; auto. apply ext_refl. Qed.
 Lemma CtorOK_trans : forall s s1 s2 v, ext s s1 -> CtorOK s1 s2 v -> CtorOK s s2 v.
 Proof. intros s s1 s2 v E (A & B & C). split; [|split]; auto. eapply ext_trans; eauto. Qed.
 
-Lemma vok_new : forall s s' U, units s' = units s ++ [U] -> multi U = false -> vok s' (O (List.length (units s)) 0).
+Lemma vok_new : forall s s' U, units s' = units s ++ [U] -> multi U = false -> isugen U = true ->
+  vok s' (O (List.length (units s)) 0).
 Proof.
-  intros s s' U H M. simpl. exists U. split; auto. unfold get_unit. rewrite H, nth_error_app2, Nat.sub_diag; auto.
+  intros s s' U H M Iu. simpl. exists U. split; [|split; [auto | rewrite Iu; discriminate]].
+  unfold get_unit. rewrite H, nth_error_app2, Nat.sub_diag; auto.
 Qed.
 
 Lemma ctor_un_built : forall s name i a s' v, Built s -> vok s a -> isO a = true ->
@@ -137,7 +179,7 @@ Proof.
     split; [reflexivity|]. split; [reflexivity|]. split; [reflexivity|]. split; [|split; [reflexivity|]].
     - unfold unit_ok, tracked; simpl. destruct a; [discriminate|reflexivity].
     - intros v0 ch [E|[]]. rewrite <- E. exact Va. }
-  split; auto. split; auto. eapply vok_new; eauto. rewrite EU. reflexivity.
+  split; auto. split; auto. eapply vok_new; eauto; rewrite EU; reflexivity.
 Qed.
 
 Lemma vneg_built : forall s a s' v, Built s -> vok s a -> vneg T s a = Ok (s', v) -> CtorOK s s' v.
@@ -166,7 +208,7 @@ Proof.
     split; [reflexivity|]. split; [reflexivity|]. split; [reflexivity|]. split; [|split; [reflexivity|]].
     - unfold unit_ok, tracked. cbn [pure isugen multi iswf ukind ins opname implb andb negb]. exact Hok.
     - intros v0 ch [E|[E|[]]]; rewrite <- E; auto. }
-  split; auto. split; auto. eapply vok_new; eauto. rewrite EU. reflexivity.
+  split; auto. split; auto. eapply vok_new; eauto; rewrite EU; reflexivity.
 Qed.
 
 Lemma kis_O : forall u ch z, kis (O u ch) z = false. Proof. reflexivity. Qed.
@@ -244,7 +286,7 @@ Proof.
   destruct (create_built _ _ _ _ _ B Ec) as (B1 & -> & E1 & U & HU & EU).
   { intros w i. cbv zeta. cbn [uid sidx wfa iswf ins].
     split; [reflexivity|]. split; [reflexivity|]. split; [reflexivity|]. split; [exact Hok|split; [reflexivity|exact Hl]]. }
-  split; auto. split; auto. eapply vok_new; eauto. rewrite EU. reflexivity.
+  split; auto. split; auto. eapply vok_new; eauto; rewrite EU; reflexivity.
 Qed.
 
 Lemma ctor_muladd_built : forall s i m a s' v, Built s -> vok s i -> vok s m -> vok s a ->
@@ -313,6 +355,10 @@ Qed.
 Definition centry_ok (c : centry) : bool := implb (c_pure c) (c_isugen c) && implb (c_wf c) (negb (c_pure c)).
 Lemma catalogue_ok : forallb (fun p => centry_ok (snd p)) catalogue = true.
 Proof. vm_compute. reflexivity. Qed.
+(* a class that is not a UGen subclass but whose objects can be inputs (the FFT chain) is width-first *)
+Definition centry_ok2 (c : centry) : bool := implb (c_hasval c && negb (c_isugen c)) (c_wf c).
+Lemma catalogue_ok2 : forallb (fun p => centry_ok2 (snd p)) catalogue = true.
+Proof. vm_compute. reflexivity. Qed.
 
 Definition ValsOK (s s' : st) (vals : list inp) : Prop := Built s' /\ ext s s' /\ forall v, In v vals -> vok s' v.
 
@@ -334,10 +380,13 @@ Proof.
       + rewrite E in Hn. apply Hargs; auto.
       + rewrite Hn in E. discriminate. }
   split; auto. split; auto. intros v Hv.
+  pose proof catalogue_ok2 as Hcat2. rewrite forallb_forall in Hcat2.
+  specialize (Hcat2 (name, c) (assoc_In _ _ _ Ea)). unfold centry_ok2 in Hcat2. cbn [snd] in Hcat2.
   destruct (c_hasval c); [|contradiction]. unfold chans in Hv. apply in_map_iff in Hv. destruct Hv as (ch & <- & Hch).
-  simpl. exists U. split.
+  simpl. exists U. split; [|split].
   - unfold get_unit. rewrite HU, nth_error_app2, Nat.sub_diag; auto.
   - rewrite EU. cbn [multi]. intro M. rewrite M in Hch. apply in_seq in Hch. lia.
+  - rewrite EU. cbn [isugen iswf]. intro Iu. rewrite Iu in Hcat2. exact Hcat2.
 Qed.
 
 Lemma Built_controls : forall s c, Built s -> Built (mkS (units s) (children s) (wfugens s) (rewriting s) (sets s) c).
@@ -354,9 +403,10 @@ Proof.
       intros v ch []. }
     split; [apply Built_controls; auto|]. split; [exact E1|].
     intros v Hv. unfold chans in Hv. apply in_map_iff in Hv. destruct Hv as (ch & <- & Hch).
-    simpl. exists U. split.
+    simpl. exists U. split; [|split].
     + unfold get_unit; simpl. rewrite HU, nth_error_app2, Nat.sub_diag; auto.
     + rewrite EU. cbn [multi]. discriminate.
+    + rewrite EU. cbn [isugen]. discriminate.
 Qed.
 
 Lemma ctor_out_built : forall s r bus xs tg s', Built s -> vok s bus -> (forall v, In v xs -> vok s v) ->
@@ -381,7 +431,7 @@ Proof.
     destruct (Hout s1 (map (fun x => if kis x 0 then O (List.length (units s)) 0 else x) xs) B1) as [B2 E2].
     + eapply vok_ext; eauto.
     + intros v Hv. apply in_map_iff in Hv. destruct Hv as (x & <- & Hx). destruct (kis x 0).
-      * simpl. exists U. split; [unfold get_unit; rewrite HU, nth_error_app2, Nat.sub_diag; auto|]. rewrite EU. cbn [multi]. discriminate.
+      * simpl. exists U. split; [unfold get_unit; rewrite HU, nth_error_app2, Nat.sub_diag; auto|]. rewrite EU. cbn [multi isugen]. split; discriminate.
       * eapply vok_ext; eauto.
     + split; auto. eapply ext_trans; eauto.
 Qed.
